@@ -1,17 +1,21 @@
 #!/bin/bash
 # ./seed_matrix.sh [repo]  — applies every seeded change to a scratch repo copy and runs every quick check against it
 # (detection matrix for DESIGN.md §12). Intended for `vp run --with-repo -- ./seed_matrix.sh`.
-R=${1:-${VP_RUN_REPO:-/repo}}
+# MATRIX_MODE=own runs only the check of the property the change was made for (regression of the seeded set).
+R=${1:-${VP_RUN_REPO}}
+if [ -z "$R" ] || [ "$R" = /repo ]; then echo "refusing to patch /repo itself: pass a scratch clone (or use vp run --with-repo)"; exit 2; fi
 export VERIF_REPO=$R
 ids=$(python3 -c "import json;print(' '.join(c['property_id'] for c in json.load(open('MANIFEST.json'))['checks']))")
 for d in seeded/*/; do
   name=$(basename $d)
   git -C $R checkout -q -- . ; git -C $R apply $d/patch.diff || { echo "$name: patch does not apply"; continue; }
   line="$name:"
-  for id in $ids; do
+  run_ids=$ids
+  if [ "$MATRIX_MODE" = own ]; then run_ids=$(echo $name | cut -c1-3); fi
+  for id in $run_ids; do
     out=$(./check $id 2>&1); rc=$?
     nv=$(echo "$out" | grep -c '^VIOLATION')
-    if [ $rc -eq 1 ]; then line="$line $id"; elif [ $rc -ne 0 ]; then line="$line ($id:inconclusive)"; fi
+    if [ $rc -eq 1 ]; then line="$line $id($nv)"; elif [ $rc -eq 0 ] && [ "$MATRIX_MODE" = own ]; then line="$line MISSED-by-$id"; elif [ $rc -ne 0 ]; then line="$line ($id:inconclusive)"; fi
   done
   echo "$line"
   git -C $R checkout -q -- .
